@@ -9,12 +9,12 @@ class Prop(PropBase):
     kernels = []
     vo_targets = ['Props/Properties_C14.vo', 'Proofs/Record.vo']
     prop_files = ['Props/Properties_C14.v']
-    rule = ('all 17 types, host and LiDAR clock on the recording side, 3 split modes, fixed-offset zones; phase 1: record a session through the packet callback (real driver) and compare '
+    rule = ('all 17 types, host and LiDAR clock on the recording side, 3 split modes, fixed-offset zones; phase 1: record a session through the packet callback (real driver; decodePacket streams, and loopback UDP with user / tail layers around every datagram) and compare '
             'every record (seq, is_difop, is_frame_begin, time, bytes incl. rewritten header) with the model; phase 2: feed the recorded bytes to a second real driver with '
             'use_lidar_clock and compare with the original clouds: same frames, same points, timestamps shifted by one constant <= packet duration (+1 us); non-trivial = >= 1 cloud replayed')
     explanation = 'C14_T1..T3 (Coq: record numbering/flags/bytes; recorded header decodes to receive time = original + packet duration exactly, both formats) + record-then-replay on the real driver'
     assumptions = ['fixed UTC offset time zone']
-    projection = {'kinds': {'cloud', 'p', 'pkt', 'open', 'crash', 'nodrv'}, 'ignore_buf': True}
+    projection = {'kinds': {'cloud', 'p', 'pkt', 'open', 'crash', 'nodrv', 'initfail'}, 'ignore_buf': True}
 
     def generate(self, rng, tier):
         scn_all = []
@@ -38,7 +38,29 @@ class Prop(PropBase):
                         n2 = f'c14_host_RSBP{"v4" if v4 else "v3"}_{r}'
                         self.cfgs[n2] = (t, cfg2)
                         scn_all.append(scen.mixed_scenario(rng, self.L, t, n2, cfg2, malformed_p=0.0, host=True, npk=4, bpv4=v4, start_az=35900))
-        return [('rec', '\n'.join(scn_all) + '\n')]
+        # recording from the UDP sockets with user / tail layers around every datagram: the record must hold the packet, not the layers
+        base = 8000 + (os.getpid() % 30) * 100        # a port block of this property only, below the ephemeral range
+        socks = []
+        stypes = (rng.sample(scen.MECH, 2) + ['RSM1']) if tier == 'quick' else [t for t in scen.ALL if t != 'RSM1_JUMBO']
+        for gi, t in enumerate(stypes):
+            l = self.L[t]
+            user, tail = rng.choice([(4, 0), (16, 4), (64, 64)])
+            cfg = pktgen.Cfg(wait=0, dense=rng.randrange(2), pktcb=1, lclock=1, mode=3, nblk=rng.choice([3, 7]), angle=0, user=user, tail=tail)
+            port = base + 2 * gi
+            s = scen.Scn(f'c14_sock_{t}_{gi}')
+            s.lines.append(cfg.line(0, l)); s.lines.append(f'N 0 4 {port} {port} 0 0')
+            pk = []
+            if l.mech:
+                ms = scen.MechStream(rng, l)
+                pk = [l.difop()] + [ms.msop() for _ in range(5)]
+            else:
+                pk = [scen.mems_msop(rng, l, 1), l.difop()] + [scen.mems_msop(rng, l, 2 + k) for k in range(3)]
+            for p in pk:
+                w = bytes(rng.randrange(256) for _ in range(user)) + p + bytes(rng.randrange(256) for _ in range(tail))
+                s.lines.append(f'U 0 {port} {w.hex()}')
+            s.lines.append('GO 0')
+            socks.append(s.text(residual=()))
+        return [('rec', '\n'.join(scn_all) + '\n'), ('rec_sock', '\n'.join(socks) + '\n')]
 
     def judge(self, bname, inp, impl_path, model_path, impl_log, violations, broken, stats):
         super().judge(bname, inp, impl_path, model_path, impl_log, violations, broken, stats)
